@@ -33,7 +33,9 @@ def h_pull(ctx, mods, shape):
             return [b]
         return split_at(b, cuts(ctx, len(b), min(ncuts, len(b) - 1), 'WRTE boundary', part=shape.get('part')))
 
-    st = Std(ctx, maxdata=shape.get('maxdata', 4096), monitor=mon, packetize=packetize)
+    reorder = (lambda s_, c: ctx.choose(len(c), 'ack/data order')) if shape.get('spec_order') else None
+    st = Std(ctx, maxdata=shape.get('maxdata', 4096), monitor=mon, packetize=packetize, reorder=reorder)
+    st.dev.strict_causality = not shape.get('spec_order')
     F = shape.get('frag', 0)
     state = {'base': None}
 
@@ -133,6 +135,10 @@ def shapes(tier, seed):
                     out.append({'h': 'pull', 'impl': impl, 'recs': recs, 'cuts': 1, 'dest': dest, 'cb': cb})
         for recs in ([], [0], [2]):
             out.append({'h': 'pull', 'impl': impl, 'recs': recs, 'cuts': 0, 'dest': 'path', 'preexisting': True})
+        # protocol.txt ordering only: the device's DATA packets may even precede its OKAY for the RECV request
+        for recs in ([2, 1], [3, 0, 2]):
+            out.append({'h': 'pull', 'impl': impl, 'recs': recs, 'cuts': 2, 'spec_order': True, 'max_paths': 200000, 'part': [0, 6]})
+            out.append({'h': 'pull', 'impl': impl, 'recs': recs, 'cuts': 1, 'spec_order': True, 'max_paths': 200000})
         for recs in ([2, 1], [3]):
             for i in range(4):
                 out.append({'h': 'pull', 'impl': impl, 'recs': recs, 'cuts': 1, 'frag': 1, 'part': [i, 4]})
